@@ -374,6 +374,10 @@ def c04(tier):
         for cfg in (sma(n), ema(n), {"k": "Alma", "n": n}, {"k": "Alma", "n": n, "sigma": [3, 1], "offset": [1, 2]}):
             iv.append({"cfg": cfg, "unit": 1000, "mode": "interval", "eps": [1, 1], "float": "f64",
                        "xs": residue_runs(rnd, n, 300 if tier == "quick" else 3000), "k": 1})
+    for n in ((1, 2, 3, 5) if tier == "quick" else (1, 2, 3, 4, 5, 8, 13)):
+        for cfg in (sma(n), ema(n), {"k": "Alma", "n": n}):
+            iv.append({"cfg": cfg, "unit": 1000, "mode": "interval", "eps": [1, 1], "float": "f64", "pairs": True,
+                       "xs": extreme_runs(rnd, n, 200 if tier == "quick" else 2000), "k": 1})
     run.submit(p3_stream_job, "avg-interval", "C04", iv)
     return run.finish(RULE_DEF + "; for the interval/constant/monotone clauses: states in which the average reports a value")
 
@@ -569,6 +573,10 @@ def c07(tier):
             posonly = cfg["k"] in ("CenterOfGravity", "Drawdown")
             adv.append({"cfg": cfg, "unit": 1000, "mode": "range", "eps": [1, 1], "float": "f64",
                         "xs": residue_runs(rnd, cfg.get("n", n), 300 if tier == "quick" else 3000, signed=not posonly), "k": 1})
+    # ... and thirty decades (inputs (m / unit) * 2^e) for the order clause Min <= Sma, Alma <= Max
+    for n in (2, 3, 5):
+        for cfg in (sma(n), {"k": "Alma", "n": n}):
+            adv.append({"cfg": cfg, "unit": 1000, "mode": "range", "eps": [1, 1], "float": "f64", "pairs": True, "xs": extreme_runs(rnd, n, 200), "k": 1})
     third = len(adv) // 3 + 1
     for i in range(3):
         run.submit(p3_stream_job, "rng-adv-%d" % i, "C07", adv[i * third:(i + 1) * third])
@@ -882,6 +890,24 @@ def residue_runs(rnd, n, length, big=(10**8, 10**9), signed=True):
             out += [rnd.randint(1, 2000) for _ in range(rnd.randint(n + 1, 2 * n + 2))]
     return out[:length]
 
+def extreme_runs(rnd, n, length):
+    """the same shapes as residue_runs with inputs [m, e] = (m / unit) * 2^e: volatile values around 2^40 .. 2^60, then more than a
+    window of values around 2^-40 - a dynamic range of thirty decades, beyond the 53 bits of an f64 mantissa"""
+    out = []
+    while len(out) < length:
+        sg = rnd.choice([-1, 1])
+        e_big = rnd.choice([40, 50, 60])
+        out += [[sg * rnd.randint(10**8, 10**9), e_big] for _ in range(rnd.randint(n + 1, 2 * n + 3))]
+        c = rnd.randint(0, 2)
+        if c == 0:
+            out += [[rnd.choice([0, 1, 1100, 123456]) * rnd.choice([-1, 1]), rnd.choice([0, -40])]] * rnd.randint(n + 1, 2 * n + 2)
+        elif c == 1:
+            base = rnd.choice([1, 7, 1100]); d = rnd.choice([1, 2, 3])
+            out += [[base + d * i, -40] for i in range(rnd.randint(n + 2, 3 * n + 2))]
+        else:
+            out += [[rnd.randint(-2000, 2000), rnd.choice([0, -40])] for _ in range(rnd.randint(n + 1, 2 * n + 2))]
+    return out[:length]
+
 def flat_after_volatile(rnd, n, lo, hi, small=False):
     pre = [rnd.randint(lo, hi) for _ in range(rnd.randint(2, 3 * n + 2))]
     v = rnd.choice(pre + [rnd.randint(lo, hi)])
@@ -986,7 +1012,7 @@ def c09(tier):
     ns = [1, 2, 3, 4, 5, 7, 9, 12, 16, 64, 128, 256] if tier == "quick" else list(range(1, 13)) + [16, 32, 64, 128, 200, 256, 512]
     lag = [{"k": "LaguerreFilter", "g": g} for g in ([0, 1], [1, 2], [9, 10])]
     progs = []; meta = []
-    def add(cfg, kind, xa, xb=None, unit=10, maxabs=1000, tailabs=None, tail=None):
+    def add(cfg, kind, xa, xb=None, unit=10, maxabs=1000, tailabs=None, tail=None, agree_from=None):
         pr = [["new", 0, cfg], ["uss", 0, xa, k]]
         if xb is not None:
             pr += [["new", 1, cfg], ["uss", 1, xb, k]]
@@ -996,6 +1022,8 @@ def c09(tier):
             m["tailabs"] = tailabs
         if tail is not None:
             m["tail"] = tail
+        if agree_from is not None:
+            m["agree_from"] = agree_from; m["k"] = k
         meta.append(m)
     for nn, cfg in [(nn, c) for nn in ns for c in c09_views(nn)] + [(1, c) for c in lag]:
         # "converge geometrically": the rate is the view's own (about 2/N per step for the slowest); the common tail is long enough
@@ -1014,8 +1042,9 @@ def c09(tier):
         add(cfg, "pair", [-1000] * 50 + [0] * H, [1000] * 50 + [0] * H, tail="constant")      # approach from below / from above
         # ... and a long exactly flat run at a non-zero level followed by movement: whatever is suspended while the input is flat
         # (a normaliser that stops decaying, a stage that stops stepping) must not leave the two pasts apart once it moves again
-        hold = [rnd.choice([777, -1234, 333])] * max(600, 5 * nn)
-        add(cfg, "pair", [rnd.randint(-1000, 1000) for _ in range(300)] + hold + tail, [rnd.randint(-30, 30) for _ in range(300)] + hold + tail)
+        hold = [rnd.choice([777, -1234, 333])] * max(600, 30 * nn)      # long enough for the slowest documented rate (about 2/N per step)
+        add(cfg, "pair", [rnd.randint(-1000, 1000) for _ in range(300)] + hold + tail, [rnd.randint(-30, 30) for _ in range(300)] + hold + tail,
+            agree_from=300 + len(hold) + 1)
         stair = [v for _ in range(H // 8 + 1) for v in [rnd.randint(-1000, 1000)] * 8][:H]
         add(cfg, "pair", [rnd.randint(-1000, 1000) for _ in range(500)] + stair, [1000, -1000] * 250 + stair)
         # a loud past followed by a quiet common tail: anything that remembers an extreme of the past (a running maximum
